@@ -40,12 +40,19 @@ def main():
     pids = sorted(registry())
     ds = sorted(os.path.join(root, x) for x in os.listdir(root) if os.path.exists(os.path.join(root, x, "patch.diff")))
     alarms = 0
+    limits = 0
     with ProcessPoolExecutor(16) as ex:
         for d, res in ex.map(one, [(d, pids) for d in ds]):
             bad = {p: r for p, r in res.items()}
-            alarms += bool(bad)
-            print("%-10s %s" % (os.path.basename(d), "silent" if not bad else "ALARM " + json.dumps({p: (r[1][:2] if isinstance(r, tuple) else r) for p, r in bad.items()})[:600]), flush=True)
-    print("patches: %d, with a false alarm: %d" % (len(ds), alarms))
+            lim = False
+            try:
+                lim = bool(json.load(open(os.path.join(d, "meta.json"))).get("documented_limit"))
+            except Exception:
+                pass
+            alarms += bool(bad) and not lim
+            limits += bool(bad) and lim
+            print("%-10s %s" % (os.path.basename(d), "silent" if not bad else ("LIMIT " if lim else "ALARM ") + json.dumps({p: (r[1][:2] if isinstance(r, tuple) else r) for p, r in bad.items()})[:600]), flush=True)
+    print("patches: %d, with a false alarm: %d, documented limits of the recognised idioms (alarm expected): %d" % (len(ds), alarms, limits))
 
 
 if __name__ == "__main__":
